@@ -310,7 +310,43 @@ func (e c07) genSweep(seed, idx uint64) any {
 	p.InitDebug = p.InitCfg >= 0 && r.P(0.5)
 	pool := discriminating(r, p.Cfgs)
 	var victim, other CTask
-	if r.P(0.6) { // a request is the victim, operator calls land inside it
+	var tailOps []COp
+	sub := -1
+	if kind := r.Intn(100); kind >= 75 {
+		// two OPERATOR calls overlapping, nothing else in flight: the victim call is preempted
+		// at each of its schedule points, the other call(s) run to completion there. An
+		// operator call has few schedule points, so the block is divided into 24 scenarios of
+		// 8 positions. What such an overlap leaves behind may be latent (a debug flag on a
+		// passthrough, a half-applied state): the tail begins with a REVEALING operator call.
+		sub = pos % 8
+		r = newR(seed^0x4f504f505f303743, block*24+uint64(pos/8))
+		cur := p.InitDebug
+		opKinds := []string{"reconf", "reconf_nil", "reconf_invalid", "setdebug", "restore", "config"}
+		mk := func() COp {
+			switch k := pick(r, opKinds); k {
+			case "reconf":
+				return COp{Kind: k, Cfg: r.Intn(n)}
+			case "reconf_invalid":
+				return COp{Kind: k, Cfg: r.Intn(n), Planted: genPlanted(r, r.Range(1, 2))}
+			case "setdebug":
+				return COp{Kind: k, Debug: cur != r.P(0.75)} // mostly a call that changes the mode
+			default:
+				return COp{Kind: k}
+			}
+		}
+		victim.Ops = []COp{mk()}
+		for k := r.Range(1, 2); k > 0; k-- {
+			other.Ops = append(other.Ops, mk())
+		}
+		switch x := r.Intn(10); {
+		case x < 6:
+			tailOps = append(tailOps, COp{Kind: "reconf", Cfg: r.Intn(n)})
+		case x < 8:
+			tailOps = append(tailOps, COp{Kind: "setdebug", Debug: r.P(0.5)})
+		case x < 9:
+			tailOps = append(tailOps, COp{Kind: "restore"})
+		}
+	} else if kind < 45 { // a request is the victim, operator calls land inside it
 		q := pool.pick(r, 1)[0]
 		victim.Ops = []COp{{Kind: "req", Req: &q}}
 		for k := r.Range(1, 3); k > 0; k-- {
@@ -331,12 +367,23 @@ func (e c07) genSweep(seed, idx uint64) any {
 	if r.P(0.5) && victim.Ops[0].Req != nil {
 		fq = *victim.Ops[0].Req
 	}
-	tail := CTask{Ops: []COp{{Kind: "req", Req: &fq}, {Kind: "config"}}}
+	tail := CTask{Ops: append(tailOps, COp{Kind: "req", Req: &fq}, COp{Kind: "config"})}
+	if sub >= 0 {
+		dq := pool.pick(r, 1)[0] // a second, independently drawn, observation
+		tail.Ops = append(tail.Ops, COp{Kind: "req", Req: &dq})
+	}
 	p.Tasks = []CTask{victim, other, tail}
 	p.Order = []int{0, 1, 2}
 	counts, _ := dryRun(p)
 	if ny := counts[0][0]; ny > 0 {
-		p.Preempts = []Preempt{{Task: 0, Op: 0, Yield: pos % ny, To: 1, Burst: len(other.Ops)}}
+		y := pos % ny
+		if sub >= 0 {
+			y = sub % ny
+			if ny > 8 {
+				y = sub * ny / 8
+			}
+		}
+		p.Preempts = []Preempt{{Task: 0, Op: 0, Yield: y, To: 1, Burst: len(other.Ops)}}
 	}
 	return p
 }
